@@ -372,6 +372,80 @@ func genCase(r *vlib.Rand, res *vlib.Result) []Op {
 	return ops
 }
 
+// largeCase: the size tier, one history per run in every tier (quick too). The deque is grown to
+// 100..300 elements by pushes at both ends (so every doubling 16 -> 32 -> ... -> 512 happens, most of them on
+// a wrapped ring), rotated through the ring at that size, exercised with every operation (Item / Set at
+// any index, Grow that reallocates a wrapped ring, Shrink), and popped down again (Shrink to the exact fit,
+// then pushes to the front). The random modes rarely hold more than ~50 elements, so a change of the code
+// guarded by `d.Len() > 64` is invisible to them.
+func largeCase(r *vlib.Rand) []Op {
+	target := r.Range(100, 300)
+	var ops []Op
+	size, val := 0, 0
+	push := func(front bool) {
+		val++
+		if front {
+			ops = append(ops, Op{Name: "pushfront", A: val})
+		} else {
+			ops = append(ops, Op{Name: "pushback", A: val})
+		}
+		size++
+	}
+	pop := func(front bool) {
+		if front {
+			ops = append(ops, Op{Name: "popfront"})
+		} else {
+			ops = append(ops, Op{Name: "popback"})
+		}
+		size--
+	}
+	for size < target {
+		push(r.Chance(1, 3))
+	}
+	// rotate: the window moves through the ring, front ends up anywhere
+	dir := r.Bool()
+	for i := r.Range(20, 150); i > 0; i-- {
+		push(dir)
+		pop(!dir)
+	}
+	for i := 0; i < target/2; i++ {
+		switch r.Pick(10, 10, 8, 8, 2, 2, 6, 6, 1, 3, 3) {
+		case 0:
+			push(true)
+		case 1:
+			push(false)
+		case 2:
+			pop(true)
+		case 3:
+			pop(false)
+		case 4:
+			ops = append(ops, Op{Name: "front"})
+		case 5:
+			ops = append(ops, Op{Name: "back"})
+		case 6:
+			ops = append(ops, Op{Name: "item", A: r.Intn(size)})
+		case 7:
+			val++
+			ops = append(ops, Op{Name: "set", A: r.Intn(size), B: val})
+		case 8:
+			ops = append(ops, Op{Name: "len"})
+		case 9:
+			ops = append(ops, Op{Name: "grow", A: []int{0, 1, size, 2 * size, r.Intn(600)}[r.Intn(5)]})
+		case 10:
+			ops = append(ops, Op{Name: "shrink", A: []int{0, 1, r.Intn(40), size}[r.Intn(4)]})
+		}
+	}
+	// back down: pops from both ends, an exact fit now and then, pushes to the front of an exact fit
+	for size > 8 {
+		pop(r.Bool())
+		if r.Chance(1, 40) {
+			ops = append(ops, Op{Name: "shrink", A: r.Intn(2)})
+			push(true)
+		}
+	}
+	return ops
+}
+
 // shape classifies the ring state reached (for the distribution and the non-triviality rule).
 func shapeStats(ops []Op, res *vlib.Result) (nontrivial bool) {
 	var d deque.Deque[*int]
@@ -538,7 +612,7 @@ func main() {
 	env := vlib.GetEnv()
 	res := vlib.NewResult("C04", "random histories in 6 modes (capacity boundaries, wrapped rings, exact fit after Shrink, malformed calls) "+
 		"plus the corpus; a case is non-trivial if it has >= 5 ops and reaches a wrapped ring state or reallocates more than once; "+
-		"distinct = different op sequence. thorough adds a BFS over every reachable (nil, cap, front, len) shape with cap <= 20 x 22 op/argument classes "+
+		"every run (quick included) has one history that holds 100..300 elements (all doublings on wrapped rings, rotation, every op at that size, back down through exact fits) under the full monitor and the raw-state correspondence; distinct = different op sequence. thorough adds a BFS over every reachable (nil, cap, front, len) shape with cap <= 20 x 22 op/argument classes "+
 		"(each new shape counts as one distinct non-trivial case)")
 	m, err := vlib.StartModel(env.Driver, "deque")
 	if err != nil {
@@ -579,6 +653,19 @@ func main() {
 	}
 	r := vlib.NewRand(env.Seed)
 	deadline := env.Deadline()
+	{
+		// the size tier (every run): full monitor and raw-state correspondence on > 64 elements
+		var ops []Op
+		if p, v := vlib.Try(func() {
+			ops = largeCase(r.Fork())
+			res.Count("large")
+			res.CountN("large-ops", len(ops))
+			res.Case(key(ops), shapeStats(ops, res), nil)
+			check(ops, m, res)
+		}); p {
+			res.Fail(vlib.Failure{Source: "correspondence", Kind: "deque-harness-panic", What: fmt.Sprintf("harness panic in the large case: %v", v), Case: opLines(ops)})
+		}
+	}
 	maxCases := 3000
 	if env.Thorough() || env.Deep {
 		maxCases = 60000
